@@ -1,2 +1,55 @@
-From Coq Require Import ZArith List.
-From Mofun Require Import Model.Atoms.
+(* C12 -- Replication describes the same crystal in a larger cell.
+   Model: Model/Atoms.v (replicate = fold of extend over the multiplier triples, zero type offsets, empty identity map). *)
+From Coq Require Import List Arith Bool ZArith.
+From Mofun Require Import Lib.NP Model.Atoms Proofs.DelProofs Proofs.ExtProofs Proofs.ReplProofs.
+Import ListNotations.
+
+(* a*b*c*N atoms: the original atoms, translated by i*A + j*B + k*C, once per multiplier triple (0,0,0 first), each with identical
+   type, charge and group; type tables unchanged; new cell rows a*A, b*B, c*C *)
+Theorem C12_atoms_and_cell : forall a c r, a_cell a = Some c -> atoms_sized a ->
+  exists R, replicate a r = Some R /\
+  a_pos R = flat_map (fun m => map (fun p => vadd p (offs_vec c m)) (a_pos a)) (all_mults r) /\
+  a_typ R = flat_map (fun _ => a_typ a) (all_mults r) /\
+  a_chg R = flat_map (fun _ => a_chg a) (all_mults r) /\
+  a_grp R = flat_map (fun _ => a_grp a) (all_mults r) /\
+  t_el R = t_el a /\ t_mass R = t_mass a /\ t_lab R = t_lab a /\ t_pair R = t_pair a /\
+  a_cell R = Some (scale_rows c r).
+Proof. exact replicate_spec. Qed.
+Print Assumptions C12_atoms_and_cell.
+
+(* the multiplier triples are exactly 0<=i<a, 0<=j<b, 0<=k<c, each once *)
+Theorem C12_every_offset_once : forall r i j k, 0 < fst (fst r) -> 0 < snd (fst r) -> 0 < snd r ->
+  (In (i, j, k) (all_mults r) <-> (let '(ra, rb, rc) := r in i < ra /\ j < rb /\ k < rc)) /\ NoDup (all_mults r).
+Proof. intros r i j k H1 H2 H3. split; [exact (in_all_mults r i j k H1 H2 H3)|exact (ucmults_nodup r)]. Qed.
+Print Assumptions C12_every_offset_once.
+
+(* the infinite crystal is unchanged: positions modulo the new lattice = positions modulo the old lattice, for any cell shape *)
+Theorem C12_same_crystal : forall a c ra rb rc R, a_cell a = Some c -> atoms_sized a -> 0 < ra -> 0 < rb -> 0 < rc ->
+  replicate a (ra, rb, rc) = Some R ->
+  forall x, in_crystal (scale_rows c (ra, rb, rc)) (a_pos R) x <-> in_crystal c (a_pos a) x.
+Proof. exact replicate_same_crystal. Qed.
+Print Assumptions C12_same_crystal.
+
+Theorem C12_identity : forall a c, a_cell a = Some c -> replicate a (1, 1, 1) = Some a.
+Proof. exact replicate_111. Qed.
+Print Assumptions C12_identity.
+
+(* terms: a shifted copy never coincides with an existing tuple, so no term is superseded while replicating *)
+Theorem C12_copies_supersede_nothing : forall n new t,
+  t <> [] -> Forall (fun v => v < n) t -> Forall (fun u => Forall (fun v => n <= v) u) new -> overridden new t = false.
+Proof. exact not_overridden_shift. Qed.
+Print Assumptions C12_copies_supersede_nothing.
+
+(* before fix D3 the cell was scaled column-wise; the row-wise model differs from it on a tilted cell with unequal factors *)
+Example C12_column_scaling_is_wrong :
+  let c := ((10, 0, 0), (2, 9, 0), (1, 3, 8))%Z in
+  scale_rows c (1, 2, 3) = ((10, 0, 0), (4, 18, 0), (3, 9, 24))%Z /\ scale_rows c (1, 2, 3) <> ((10, 0, 0), (2, 18, 0), (1, 6, 24))%Z.
+Proof. split; [reflexivity|discriminate]. Qed.
+
+Example C12_nonvacuous :
+  let a := mk_atoms [(1,2,3)%Z; (4,5,6)%Z] [0;1] [0%Z;1%Z] [0%Z;0%Z] [[];[]] [] [1%Z;2%Z] [3%Z;4%Z] [5%Z;6%Z] []
+             (mk_kind [[0;1]] [0] [[]] [] []) empty_kind empty_kind (mk_kind [[0;1;0;1]] [0] [[]] [] [])
+             (Some ((10,0,0),(2,9,0),(1,3,8))%Z) in
+  option_map (fun R => (length (a_pos R), k_tup (bonds R), k_tup (impropers R))) (replicate a (2, 1, 1)) =
+  Some (4, [[0;1];[2;3]], [[0;1;0;1];[2;3;2;3]]).
+Proof. vm_compute. reflexivity. Qed.
